@@ -1,6 +1,7 @@
 package main
 
 import (
+	"strings"
 	"fmt"
 	"go/constant"
 	"go/token"
@@ -689,54 +690,98 @@ func ownUnappliedEntry(p *Prog, inst, f *ssa.Function, del *ssa.Call) bool {
 func prevPatchRestoredBefore(p *Prog, inst *ssa.Function, at ssa.Instruction) bool {
 	op := p.patchRoles().POrigin
 	rr := restoreReachers(p)
-	captureCall := at
-	okUnpatch := false
-	eachInstr(inst, func(i ssa.Instruction) {
-		lk, ok := i.(*ssa.Lookup)
-		if !ok || !lk.CommaOk {
-			return
-		}
-		if as := origins(lk.X); len(as) != 1 || as[0].Kind != "global" {
-			return
-		}
-		if _, fv, ok := fieldRef(resolveLocal(lk.Index)); !ok || fv != op {
-			return
-		}
-		if !domInstr(lk, captureCall) {
-			return
-		}
-		// found-branch
-		var okV ssa.Value
-		for _, ref := range *lk.Referrers() {
-			if ex, ok := ref.(*ssa.Extract); ok && ex.Index == 1 {
-				okV = ex
+	isOriginField := func(v ssa.Value) bool {
+		_, fv, ok := fieldRef(resolveLocal(v))
+		return ok && fv == op
+	}
+	// lookupRestores: fn looks the patch table up under a key accepted by isKey and, where the entry was found, calls a
+	// function that reaches the restore — for that key or on the entry found; before (dominating) `before` when given
+	var lookupRestores func(fn *ssa.Function, isKey func(ssa.Value) bool, before ssa.Instruction) bool
+	lookupRestores = func(fn *ssa.Function, isKey func(ssa.Value) bool, before ssa.Instruction) bool {
+		found := false
+		eachInstr(fn, func(i ssa.Instruction) {
+			lk, ok := i.(*ssa.Lookup)
+			if !ok || !lk.CommaOk || found {
+				return
 			}
-		}
-		iff, _ := lk.Block().Instrs[len(lk.Block().Instrs)-1].(*ssa.If)
-		if iff == nil || iff.Cond != okV {
-			return
-		}
-		tb := lk.Block().Succs[0]
-		for _, ins := range tb.Instrs {
-			if ci, ok := ins.(ssa.CallInstruction); ok {
-				if cal := staticCallee(ci.Common()); cal != nil && rr[cal] {
-					// keyed by the same origin
-					for _, a := range ci.Common().Args {
-						if _, fv, ok := fieldRef(resolveLocal(a)); ok && fv == op {
-							okUnpatch = true
-						}
+			if as := origins(lk.X); len(as) != 1 || as[0].Kind != "global" {
+				return
+			}
+			if !isKey(lk.Index) {
+				return
+			}
+			if before != nil && !domInstr(lk, before) {
+				return
+			}
+			var okV, entry ssa.Value
+			for _, ref := range *lk.Referrers() {
+				if ex, ok := ref.(*ssa.Extract); ok {
+					if ex.Index == 1 {
+						okV = ex
+					} else {
+						entry = ex
 					}
 				}
 			}
+			iff, _ := lastInstr(lk.Block()).(*ssa.If)
+			if iff == nil || iff.Cond != okV {
+				return
+			}
+			tb := lk.Block().Succs[0]
+			if len(tb.Preds) != 1 {
+				return
+			}
+			restored, returned := false, false
+			for _, b := range fn.Blocks {
+				if b != tb && !tb.Dominates(b) {
+					continue
+				}
+				for _, ins := range b.Instrs {
+					if ci, ok := ins.(ssa.CallInstruction); ok {
+						if cal := staticCallee(ci.Common()); cal != nil && rr[cal] {
+							for _, a := range ci.Common().Args {
+								if isKey(a) || (entry != nil && resolveLocal(a) == entry) {
+									restored = true
+								}
+							}
+						}
+					}
+					if _, ok := ins.(*ssa.Return); ok && b == tb && before != nil {
+						returned = true // in the installer the restore branch must rejoin before the capture
+					}
+				}
+			}
+			if restored && !returned {
+				found = true
+			}
+		})
+		return found
+	}
+	if lookupRestores(inst, isOriginField, at) {
+		return true
+	}
+	// or: an unconditional call, before the capture, of a helper that does exactly that for the origin it is given
+	ok := false
+	eachInstr(inst, func(i ssa.Instruction) {
+		ci, isCall := i.(ssa.CallInstruction)
+		if !isCall || ok || !domInstr(i, at) {
+			return
 		}
-		// the restore branch must rejoin before the capture (not return)
-		for _, ins := range tb.Instrs {
-			if _, ok := ins.(*ssa.Return); ok {
-				okUnpatch = false
+		cal := staticCallee(ci.Common())
+		if cal == nil || cal.Blocks == nil || !strings.HasPrefix(pkgPathOf(cal), Mod) {
+			return
+		}
+		for k, a := range ci.Common().Args {
+			if !isOriginField(a) || k >= len(cal.Params) {
+				continue
+			}
+			prm := cal.Params[k]
+			if lookupRestores(cal, func(v ssa.Value) bool { return resolveLocal(v) == ssa.Value(prm) }, nil) {
+				ok = true
 			}
 		}
 	})
-	return okUnpatch
+	return ok
 }
 
 // sameGlobal: both values are reads of one and the same package-level variable.
